@@ -65,6 +65,10 @@ A64 = [
     ("ldr {X}, [{A}], #{I}", "A", "XA", False), ("ldr {X}, [{A}, #{I}]!", "A", "XA", False),
     ("str {X}, [{A}], #{I}", "XA", "A", False), ("str {X}, [{A}, #{I}]!", "XA", "A", False),
     ("ldp {X}, {Y}, [{A}, #{I}]", "A", "XY", False), ("stp {X}, {Y}, [{A}, #{I}]", "XYA", "", False),
+    # the stack pointer as an ordinary register, as memory base and with write-back
+    ("sub sp, sp, #{I}", "S", "S", False), ("add sp, sp, #{I}", "S", "S", False), ("mov {A}, sp", "S", "A", False),
+    ("add {A}, sp, #{I}", "S", "A", False), ("str {X}, [sp, #{I}]", "XS", "", False), ("ldr {X}, [sp, #{I}]", "S", "X", False),
+    ("stp {X}, {Y}, [sp, #-{I}]!", "XYS", "S", False), ("ldp {X}, {Y}, [sp], #{I}", "S", "XYS", False),
     # flag readers / further writers
     ("csel {A}, {B}, {C}, {CC}", "BC", "A", False, "CC"), ("cset {A}, {CC}", "", "A", False, "CC"),
     ("csinc {A}, {B}, {C}, {CC}", "BC", "A", False, "CC"),
@@ -148,11 +152,37 @@ def gen(rng, isa, n, npool=3, flags=False):
                    "I": str(rng.choice([8, 16, 32]))}
             lines.append(fmt.format(**sub))
             ids = {"A": ("g", b["A"]), "B": ("g", b["B"]), "C": ("g", b["C"]), "X": ("v", v["X"]), "Y": ("v", v["Y"]),
-                   "Z": ("v", v["Z"]), "W": ("v", v["W"])}
+                   "Z": ("v", v["Z"]), "W": ("v", v["W"]), "S": ("g", 31)}
             reads = {ids[c] for c in rd} | frs
             writes = {ids[c] for c in wr} | fws
             roles.append((reads, writes))
     return lines, roles
+
+
+def writeback_regs(line, roles_i):
+    """architectural ids written by `line` through address write-back (pre-index `]!` / post-index `], #imm`)"""
+    if "]!" not in line and "]," not in line:
+        return set()
+    base = line.split("[")[1].split("]")[0].split(",")[0].strip()
+    if base == "sp":
+        return {("g", 31)}
+    return {("g", int(base[1:]))} if base[:1] in "xw" and base[1:].isdigit() else set()
+
+
+def reference_raw_regs(roles, flags=False):
+    """{(i, j): set of architectural ids through which j depends on i}"""
+    out = {}
+    for i, (_, wi) in enumerate(roles):
+        for r in wi:
+            if r[0] == "F" and not flags:
+                continue
+            for j in range(i + 1, len(roles)):
+                rj, wj = roles[j]
+                if r in rj:
+                    out.setdefault((i, j), set()).add(r)
+                if r in wj:
+                    break
+    return out
 
 
 def reference_raw(roles, flags=False):
